@@ -178,7 +178,7 @@ CHECKS = {
         "checksum and both offsets; (safety) with ARBITRARY candidate keys and an arbitrary stored checksum the scanner extracts exactly the "
         "stored checksum and reports a configuration only if payload_checksum(block)+1 equals it, otherwise the guard metadata alone; "
         "payload_checksum equals the weighted byte sum modulo 99999999."
-        ' The real n-gram key heuristic (no stub) is interpreted at the real 6144-byte patch size with a symbolic environmental key of 3 bytes (thorough 2..5) on zero-padded configurations with 16 / 2100 / 4000 bytes of settings, and with the longest documented key (256 bytes; 768-byte area): the true key is offered.',
+        ' The real n-gram key heuristic (no stub) is interpreted at the real 6144-byte patch size with a symbolic environmental key of 3 bytes (thorough 2..5) on zero-padded configurations with 16 / 2100 / 2900 bytes of settings, and with the longest documented key (256 bytes; 768-byte area): the true key is offered.',
         note="Trusted: z3; symx; find_xor_key_candidates (n-gram frequency heuristic over collections.Counter) is replaced by a candidate "
         "list — that the heuristic ranks the true key for every input is statistical and NOT claimed (it is run for real, at the real "
         "6144/2048 sizes, on concrete validation vectors each run). Validity predicate: the file contains no default-key header, no second "
